@@ -725,6 +725,8 @@ def r11_19(ctx) -> None:
 
 
 def run(ctx) -> None:
+    from .common import member_crossing
+    ctx.guard(member_crossing, "R11.20", None, True)  # named members are filled from the value of the same name (generic crossing rule, rules/common.py)
     from .common import forwarding_discipline
     ctx.guard(forwarding_discipline, "R11.15", ['parameters', 'password', 'encoding', 'key_type', 'crv_or_size', 'data', 'value'], 46)  # arguments are handed on under their own name (generic routing rule, rules/common.py)
     ctx.guard(fixed_width_ec, "R11.1")
